@@ -6,13 +6,13 @@ From Coq Require Import List Bool NArith Arith.
 Import ListNotations.
 From Verif Require Import PsbtModel PsbtCasesDefs PsbtCasesGen.
 
-Definition diag : list (N * nat * N) := failing descs sigflags mall_false mall_true keep_unknown all_cases.
+Definition diag : list (N * nat * N) := failing descs sigflags mall_false mall_true all_cases.
 
 Definition model_result_at (c : pcase) (n : nat) : option result :=
-  option_map fst (nth_error (model_trace descs sigflags mall_false mall_true keep_unknown c) n).
+  option_map fst (nth_error (model_trace descs sigflags mall_false mall_true c) n).
 
 Definition expected : list (N * nat * option result) :=
-  flat_map (fun c => match check_case descs sigflags mall_false mall_true keep_unknown c with
+  flat_map (fun c => match check_case descs sigflags mall_false mall_true c with
                      | None => []
                      | Some (n, _) => [(c_id c, n, model_result_at c n)]
                      end) all_cases.
